@@ -187,6 +187,7 @@ def service_cases(draw, tier="quick", http=False):
     for _ in range(draw(st.integers(0, 3))):
         more.append(draw(st.sampled_from(valid_ups)) + draw(st.sampled_from(["1", "a/b", "x_1", "", "1,5", "a&b"])))
     case["more_uris"] = more
+    case["decorated"] = draw(st.integers(0, 2)) == 0
     if http:
         case["accept"] = draw(accept_headers())["header"]
     return case
@@ -204,6 +205,31 @@ def _queries(uri, pred, bound, allow_prefixed):
     if allow_prefixed and pred == OWL_SAMEAS:
         shapes["prefixed-name"] = f"SELECT ?{free} WHERE {{ VALUES ?{bound} {{ <{uri}> }} ?s owl:sameAs ?o }}"
     return free, shapes
+
+
+NEVER_PRED = "http://example.org/never-configured"
+
+
+def _decorated_queries(uri, pred, bound):
+    """The same lookup with an ordinary extra clause in the WHERE body (FILTER, BIND, OPTIONAL, UNION), each with the VALUES
+    block inside and after the WHERE block: (name, query, function from the undecorated expected set to the expected set)."""
+    free = "o" if bound == "s" else "s"
+    p = f"<{pred}>"
+    head = uri[: max(8, len(uri) // 2)]
+    bodies = [
+        ("filter-not-self", "?s {p} ?o FILTER(?s != ?o)", lambda want: want - {uri}),
+        ("filter-isiri", "?s {p} ?o . FILTER(isIRI(?{free}))", lambda want: set(want)),
+        ("filter-strstarts", '?s {p} ?o FILTER(STRSTARTS(STR(?{free}), "{head}"))', lambda want: {x for x in want if x.startswith(head)}),
+        ("bind", "?s {p} ?o BIND(STR(?{free}) AS ?x)", lambda want: set(want)),
+        ("optional", "?s {p} ?o OPTIONAL {{ ?{free} <{never}> ?z }}", lambda want: set(want)),
+        ("union", "{{ ?s {p} ?o }} UNION {{ ?s <{never}> ?o }}", lambda want: set(want)),
+    ]
+    out = []
+    for name, body, fn in bodies:
+        b = body.format(p=p, free=free, head=head, never=NEVER_PRED)
+        out.append((name + "/values-inside", f"SELECT ?{free} WHERE {{ VALUES ?{bound} {{ <{uri}> }} {b} }}", fn))
+        out.append((name + "/values-after", f"SELECT ?{free} WHERE {{ {b} }} VALUES ?{bound} {{ <{uri}> }}", fn))
+    return out
 
 
 def _extend(conv, records):
@@ -275,6 +301,16 @@ def check_graph(case, stats: Stats) -> None:
             got = {str(getattr(row, free)) for row in rows}
             if got != want:
                 raise Violation(f"{phase} query shape {name} binding ?{case['bound']} to <{case['uri']}> over <{case['query_predicate']}> returned ?{free} = {sorted(got)!r}, expected {sorted(want)!r}\n{q}")
+    if case.get("decorated", True) and '"' not in case["uri"] and "\\" not in case["uri"]:
+        for name, q, fn in _decorated_queries(case["uri"], case["query_predicate"], case["bound"]):
+            stats.ev()
+            with warnings.catch_warnings():
+                warnings.simplefilter("ignore")
+                got = {str(getattr(row, free)) for row in graph.query(q, processor=processor)}
+            exp = fn(want)
+            if got != exp:
+                raise Violation(f"query shape {name} binding ?{case['bound']} to <{case['uri']}> returned ?{free} = {sorted(got)!r}, expected {sorted(exp)!r}\n{q}")
+        stats.cls("decorated-where-bodies")
     # a sequence of lookups on the same graph, then all of them in one VALUES block: every URI keeps its own answer
     seq = [u for u in case.get("more_uris", []) if not any(ch in INVALID_IRI_CHARS for ch in u)] + [case["uri"]]
     if len(seq) > 1 and case["query_predicate"] in (case["predicates"] or [OWL_SAMEAS]):
@@ -387,7 +423,7 @@ SUBS = [
     Sub(name="negotiation", check=check_negotiation, strategy=lambda tier: accept_headers(tier), n={"quick": 4000, "thorough": 20000},
         required_classes=("nt:whitespace+q+2supported", "header:compact")),
     Sub(name="graph", check=check_graph, strategy=lambda tier: service_cases(tier), n={"quick": 200, "thorough": 600},
-        required_classes=("recognised", "unrecognised", "other-predicate", "nt:queried-uri-is-synonym-rendering", "nt:invalid-iri-synonym-filtered", "converter-extended-after-graph-built", "several-uris-on-one-graph")),
+        required_classes=("recognised", "unrecognised", "other-predicate", "nt:queried-uri-is-synonym-rendering", "nt:invalid-iri-synonym-filtered", "converter-extended-after-graph-built", "several-uris-on-one-graph", "decorated-where-bodies")),
     Sub(name="http", check=check_http, strategy=lambda tier: service_cases(tier, http=True), n={"quick": 80, "thorough": 250},
         required_classes=("recognised", "answer-needs-csv-quoting-or-xml-escaping", "answer-has-non-ascii")),
 ]
